@@ -312,7 +312,10 @@ def classify(case, res):
             return "F63"     # torch.absolute(k1) has subgradient 0 at 0: the cos/sin coefficients get no gradient, a21 = k1*sx does
     if cls == "Solenoid" and float(kw.get("k", 0.0)) == 0.0 and p in ("k", "length") and kinds == {"nan"}:
         return "F7"
-    if cls == "Cavity" and float(kw.get("voltage", 0.0)) == 0.0 and p in ("length", "voltage", "phase") and kinds == {"nan"}:
+    if cls == "Cavity" and float(kw.get("voltage", 0.0)) == 0.0 and p in ("length", "voltage", "phase") and "nan" in kinds \
+            and kinds <= {"nan", "none"} and all(b["output"] == "energy" for b in bad if b["kind"] == "none"):
+        # inside a Segment the switched-off cavity is merged as a linear map: the outgoing energy then has no dependence on the
+        # voltage at all (None), every other quantity is NaN
         return "F7"
     if cav_off and any(k > w[1] for k in cav_off) and kinds == {"nan"} and any(x["cls"] == "Cavity" and float(x["kw"].get("voltage", 0.0)) != 0.0
                                                                                for x in lat[:max(cav_off)]) and cls == "Cavity":
@@ -982,17 +985,17 @@ def main(tier, replay=None):
                        "differentiable parameter x beam type x tracking method, one all-zero point and %d random points; segments of 2-4 elements; "
                        "beam parameters; all outgoing mu/sigma/cov/particle coordinates/energy; autograd vs Richardson-extrapolated central "
                        "differences. Non-trivial = at least one outgoing quantity depends on the parameter; distinct by full case content."
-                       % (6 if thorough else 1))
+                       % (12 if thorough else 1))
     if replay:
         return do_replay(run, replay)
     proof_ok = run.proof_stage()
     if not proof_ok:
         run.notes.append(run.proof_problem)
     ok, log = common.coq_build("theories/Optics/DerivTac.vo")
-    broken, results = ([{"why": "coq build of Optics/DerivTac.vo failed: " + log[-800:]}], []) if not ok else correspondence(run, 60 if thorough else 12)
+    broken, results = ([{"why": "coq build of Optics/DerivTac.vo failed: " + log[-800:]}], []) if not ok else correspondence(run, 120 if thorough else 12)
 
-    cases = gen_single_cases(run.rng, 6 if thorough else 1) + gen_segment_cases(run.rng, 300 if thorough else 40) \
-        + gen_beam_param_cases(run.rng, 200 if thorough else 30)
+    cases = gen_single_cases(run.rng, 12 if thorough else 1) + gen_segment_cases(run.rng, 800 if thorough else 40) \
+        + gen_beam_param_cases(run.rng, 400 if thorough else 30)
     viol, known = run_oracle(run, cases)
     # failing inputs around a broken correspondence point
     if broken and not viol:
